@@ -43,6 +43,7 @@ type World struct {
 	GenesisTime  time.Time
 	Users        []*Account
 	EthUsers     []*Account
+	SecpUsers    []*Account // accounts held by SECP256K1 keys (the third key algorithm native transactions can be signed with)
 	Vals         []*ValSpec
 	Gov          governance.GovernanceState
 	Currencies   []balance.Currency
@@ -103,6 +104,7 @@ func NewWorld(name string, nVals, nGenesis int) *World {
 	for _, n := range []string{"EA", "EB"} {
 		w.EthUsers = append(w.EthUsers, NewEthAccount("ethuser-"+n))
 	}
+	w.SecpUsers = append(w.SecpUsers, NewSecpAccount("secpuser-S"))
 	for i := 0; i < nVals; i++ {
 		n := string(rune('1' + i))
 		v := &ValSpec{
@@ -225,6 +227,9 @@ func (w *World) AppState() consensus.AppState {
 		give(u.Addr)
 	}
 	for _, u := range w.EthUsers {
+		give(u.Addr)
+	}
+	for _, u := range w.SecpUsers {
 		give(u.Addr)
 	}
 	for _, v := range w.Vals {
